@@ -1,0 +1,145 @@
+//! Verification hook (only compiled with `--cfg datacake_verif`): an in-process transport.
+//!
+//! When enabled on the current thread, [crate::Server::listen] registers the server state
+//! under its address instead of binding a socket, and the client channel hands every request
+//! to the real connection handler of the addressed server. A policy decides the fate of each
+//! message (drop, duplicate, delay, stall the reply body), which gives a harness full control
+//! over the "network" without sockets.
+use std::cell::RefCell;
+use std::collections::HashMap;
+use std::io;
+use std::net::SocketAddr;
+use std::rc::Rc;
+use std::time::Duration;
+
+use http::{HeaderMap, Method, Request, Response};
+
+use crate::net::Error;
+use crate::server::ServerState;
+
+#[derive(Debug, Clone, Copy, PartialEq, Eq)]
+/// What happens to one request.
+pub enum Verdict {
+    /// The request is handled and the reply returned.
+    Deliver,
+    /// The request is lost before it reaches the server.
+    FailBefore,
+    /// The request is handled but the reply is lost.
+    FailAfter,
+    /// The request is handled twice, the second reply is returned.
+    Duplicate,
+    /// The request is delivered after the given delay.
+    Delay(Duration),
+    /// The reply head is returned at once, the body only after the given delay.
+    StallBody(Duration),
+}
+
+/// Decides the fate of a request from its destination and URI path.
+pub type Policy = Rc<dyn Fn(SocketAddr, &str) -> Verdict>;
+
+#[derive(Default)]
+struct Net {
+    enabled: bool,
+    servers: HashMap<SocketAddr, ServerState>,
+    policy: Option<Policy>,
+}
+
+thread_local! {
+    static NET: RefCell<Net> = RefCell::new(Net::default());
+}
+
+/// Switches the in-process transport on or off for the current thread.
+pub fn enable(on: bool) {
+    NET.with(|n| {
+        let mut n = n.borrow_mut();
+        n.enabled = on;
+        if !on {
+            n.servers.clear();
+            n.policy = None;
+        }
+    })
+}
+
+/// Is the in-process transport enabled on this thread.
+pub fn enabled() -> bool {
+    NET.with(|n| n.borrow().enabled)
+}
+
+/// Installs the message policy (`None` delivers everything).
+pub fn set_policy(p: Option<Policy>) {
+    NET.with(|n| n.borrow_mut().policy = p)
+}
+
+/// Removes a server, as if its process had died.
+pub fn unregister(addr: SocketAddr) {
+    NET.with(|n| n.borrow_mut().servers.remove(&addr));
+}
+
+pub(crate) fn register(addr: SocketAddr, state: ServerState) {
+    NET.with(|n| n.borrow_mut().servers.insert(addr, state));
+}
+
+fn refused(msg: &str) -> Error {
+    Error::Io(io::Error::new(io::ErrorKind::ConnectionRefused, msg.to_string()))
+}
+
+pub(crate) async fn send(
+    remote_addr: SocketAddr,
+    path: String,
+    headers: HeaderMap,
+    body: hyper::Body,
+) -> Result<Response<hyper::Body>, Error> {
+    let (state, verdict) = NET.with(|n| {
+        let n = n.borrow();
+        let v = n
+            .policy
+            .as_ref()
+            .map(|p| p(remote_addr, &path))
+            .unwrap_or(Verdict::Deliver);
+        (n.servers.get(&remote_addr).cloned(), v)
+    });
+
+    if let Verdict::Delay(d) = verdict {
+        tokio::time::sleep(d).await;
+    }
+    if verdict == Verdict::FailBefore {
+        return Err(refused("verif: request dropped"));
+    }
+    let state = state.ok_or_else(|| refused("verif: no server at address"))?;
+    let bytes = hyper::body::to_bytes(body).await?;
+
+    let rounds = if verdict == Verdict::Duplicate { 2 } else { 1 };
+    let mut last = None;
+    for _ in 0..rounds {
+        let uri = format!("http://{}{}", remote_addr, path);
+        let mut req = Request::builder()
+            .method(Method::POST)
+            .uri(uri)
+            .body(hyper::Body::from(bytes.clone()))
+            .unwrap();
+        (*req.headers_mut()) = headers.clone();
+        let state = state.clone();
+        let client: SocketAddr = ([127, 0, 0, 1], 0).into();
+        // The handler runs in its own task like on a real server, so it completes
+        // even if the caller goes away.
+        let resp = tokio::spawn(crate::net::verif_handle(req, state, client))
+            .await
+            .map_err(|e| refused(&format!("verif: handler task failed: {e}")))?;
+        last = Some(resp);
+    }
+    if verdict == Verdict::FailAfter {
+        return Err(refused("verif: reply dropped"));
+    }
+    let resp = last.unwrap();
+    if let Verdict::StallBody(d) = verdict {
+        let (head, body) = resp.into_parts();
+        let bytes = hyper::body::to_bytes(body).await?;
+        let (mut tx, stalled) = hyper::Body::channel();
+        tokio::spawn(async move {
+            tokio::time::sleep(d).await;
+            let _ = tx.send_data(bytes).await;
+        });
+        return Ok(Response::from_parts(head, stalled));
+    }
+    Ok(resp)
+}
